@@ -18,6 +18,7 @@ import tempfile
 import time
 
 VERIF = os.path.dirname(os.path.dirname(os.path.abspath(__file__)))
+BASE = os.environ.get('SEED_BASE', 'HEAD')     # the /repo commit the stored patch was written against
 PY = '/venv/bin/python'
 
 
@@ -39,7 +40,7 @@ def main():
     os.rmdir(wt)
     meta = dict(name=name, property=pid, source=src)
     try:
-        rc, out = sh(f'git -C /repo worktree add -q --detach {wt} HEAD')
+        rc, out = sh(f'git -C /repo worktree add -q --detach {wt} {BASE}')
         if rc:
             print('worktree failed', out)
             return 2
